@@ -39,6 +39,7 @@ impl Nft {
 }
 
 #[test]
+#[ignore = "observation only: Base::mint / sequential_mint document id uniqueness as the integrator's duty (outside C10's quantifier)"]
 fn base_explicit_mint_then_sequential_mint_reissues_the_id() {
     let e = Env::default();
     let c = e.register(Nft, ());
@@ -54,6 +55,7 @@ fn base_explicit_mint_then_sequential_mint_reissues_the_id() {
 }
 
 #[test]
+#[ignore = "observation only: Base::mint / sequential_mint document id uniqueness as the integrator's duty (outside C10's quantifier)"]
 fn base_mint_of_an_owned_id_is_accepted() {
     let e = Env::default();
     let c = e.register(Nft, ());
@@ -66,6 +68,7 @@ fn base_mint_of_an_owned_id_is_accepted() {
 }
 
 #[test]
+#[ignore = "observation only: Base::mint / sequential_mint document id uniqueness as the integrator's duty (outside C10's quantifier)"]
 fn enumerable_mint_of_an_owned_id_lists_the_token_twice() {
     let e = Env::default();
     let c = e.register(Nft, ());
